@@ -150,6 +150,25 @@ class Ctx:
         self._calls = {}
         self._closure_site = None
         self._cache = {}
+        # private accessors that hand out the old table (`fn old_table(&self) -> Option<&RawTable<T>>`): their result is followed like the
+        # projection it is
+        facts.old_accessors = {}
+        try:
+            from rules_size import _old_table_accessors
+            A = facts.adts
+            sname = A[ro.S]["variants"][0]["fields"]
+            oname = A[ro.O]["variants"][0]["fields"]
+            desc = {"left": ("field", ro.S, ro.S_left, sname[ro.S_left]["name"]),
+                    "tail": [("downcast", "Some"), ("field", "core::option::Option", 0, None), ("field", ro.O, ro.O_table, oname[ro.O_table]["name"])]}
+            found = _old_table_accessors(self)
+            facts.old_accessors = {p_: desc for p_ in found}
+            if found:
+                for b_ in facts.bodies.values():
+                    b_.__dict__.pop("_expand_cache", None)
+                self._cache.clear()
+                self._calls.clear()
+        except Exception:
+            facts.old_accessors = {}
 
     # ------------------------------------------------------------------
     def calls(self, body):
@@ -329,6 +348,8 @@ def view_ctx(ctx, policy):
                         if rv["k"] == "aggregate" and rv.get("agg") == "adt" and (rv.get("adt") in ctx.roles.composites or rv.get("adt") in ctx.roles.handles
                                                                                    or (rv.get("adt") or "").startswith(ctx.facts.crate + "::external_trait_impls::rayon::raw::")):
                             protect.add(b.path)
+            # accessors that hand out the old table are followed as projections (core.expand): they keep their bodies in every view
+            protect = set(protect) | set(getattr(ctx.facts, "old_accessors", {}) or {})
             f2, done = inline.build_view(ctx.facts, policy, roles=ctx.roles, protect=protect)
         except Exception:
             import traceback
